@@ -171,9 +171,17 @@ public:
     }
 
     // add padding dimensions
+    //The padding tables are owned here; if anything below throws (an
+    //allocation in particular) they are released, and so is whatever this
+    //table has obtained so far: no destructor runs for an object whose
+    //constructor throws.
+    std::unique_ptr<splinetable<Alloc>> padFront, padBack;
     {
-      auto extrapolateSpline=[](const splinetable<Alloc>* s1, const splinetable<Alloc>* s2)->splinetable<Alloc>*{
-        splinetable<Alloc>* snew = new splinetable<Alloc>();
+      auto extrapolateSpline=[](const splinetable<Alloc>* s1, const splinetable<Alloc>* s2)->std::unique_ptr<splinetable<Alloc>>{
+        std::unique_ptr<splinetable<Alloc>> holder(new splinetable<Alloc>());
+        splinetable<Alloc>* snew = holder.get();
+        //a partially built table must not reach its destructor
+        storage_guard partial(snew);
 
         snew->ndim = s2->ndim;
 
@@ -184,6 +192,7 @@ public:
         std::copy_n(s2->nknots,s2->ndim,snew->nknots);
 
         snew->knots = snew->allocate<double_ptr>(s2->ndim);
+        std::fill(snew->knots,snew->knots+s2->ndim,nullptr);
         for(unsigned int i=0; i<s2->ndim; i++){
           snew->knots[i] = snew->allocate<double>(s2->nknots[i]+2*s2->order[i]) + s2->order[i];
           std::copy_n(s2->knots[i],s2->nknots[i],snew->knots[i]);
@@ -196,6 +205,7 @@ public:
         std::copy_n(s2->strides,s2->ndim,snew->strides);
 
         snew->extents = snew->allocate<double_ptr>(s2->ndim);
+        snew->extents[0] = nullptr;
         snew->extents[0] = snew->allocate<double>(2*s2->ndim);
         for(unsigned int i=0;i<s2->ndim; i++){
           snew->extents[i] = &snew->extents[0][2*i];
@@ -218,16 +228,20 @@ public:
           snew->get_coefficients()[i]=2*c2-c1;
         }
 
-        return(snew);
+        partial.dismiss();
+        return(holder);
       };
 
-      tables.insert(tables.begin(),extrapolateSpline(tables[1],tables[0]));
+      padFront=extrapolateSpline(tables[1],tables[0]);
+      tables.insert(tables.begin(),padFront.get());
       coordinates.insert(coordinates.begin(),2*coordinates[0]-coordinates[1]);
 
-      tables.push_back(extrapolateSpline(tables[tables.size()-2],tables[tables.size()-1]));
+      padBack=extrapolateSpline(tables[tables.size()-2],tables[tables.size()-1]);
+      tables.push_back(padBack.get());
       coordinates.push_back(2*coordinates[coordinates.size()-1]-coordinates[coordinates.size()-2]);
     }
 
+    storage_guard guard(this);
     //set dimensions
     ndim=inputDim+1;
     //copy/set spline orders and knots
@@ -242,6 +256,7 @@ public:
     nknots[inputDim]=tables.size()+stackOrder+1;
 
     knots=allocate<double_ptr>(ndim);
+    std::fill(knots,knots+ndim,nullptr);
     //copy existing knots
     for(unsigned int i=0; i<inputDim; i++){
       knots[i]=allocate<double>(nknots[i]+2*order[i]) + order[i];
@@ -273,6 +288,17 @@ public:
       naxes[i] = tables.front()->get_ncoeffs(i);
     naxes[inputDim]=tables.size();
 
+    //set strides (before the coefficients are obtained: release_storage sizes
+    //the coefficient array by strides[0]*naxes[0])
+    strides = allocate<uint64_t>(ndim);
+    uint64_t arraysize;
+    strides[ndim-1] = arraysize = 1;
+    for(int i=ndim-1; i >= 0; i--){
+      arraysize *= naxes[i];
+      if(i>0)
+        strides[i-1] = arraysize;
+    }
+
     //copy coefficients
     unsigned long nCoeffs=std::accumulate(naxes, naxes+ndim, 1UL, std::multiplies<uint64_t>());
     unsigned long nInputCoeffs=std::accumulate(naxes, naxes+ndim-1, 1UL, std::multiplies<uint64_t>());
@@ -281,16 +307,6 @@ public:
     for(unsigned int i=0; i<tables.size(); i++){
       for(unsigned int j=0; j<nInputCoeffs; j++)
         coefficients[i+j*step]=tables[i]->get_coefficients()[j];
-    }
-
-    //set strides
-    strides = allocate<uint64_t>(ndim);
-    uint64_t arraysize;
-    strides[ndim-1] = arraysize = 1;
-    for(int i=ndim-1; i >= 0; i--){
-      arraysize *= naxes[i];
-      if(i>0)
-        strides[i-1] = arraysize;
     }
 
     //set extents: those of the inputs, and the fully supported range of the
@@ -309,10 +325,11 @@ public:
     extents[inputDim][0] = knots[inputDim][order[inputDim]];
     extents[inputDim][1] = knots[inputDim][nknots[inputDim]-order[inputDim]-1];
 
+    guard.dismiss();
     //the two padding tables were created above (extrapolateSpline) and are
     //owned by this function; their coefficients have been copied
-    delete tables.front();
-    delete tables.back();
+    padFront.reset();
+    padBack.reset();
 	}
 
 	splinetable(splinetable&& other):
